@@ -30,8 +30,10 @@
 #  error "Coroutine support is required to use <unifex/connect_awaitable.hpp>"
 #endif
 
+#include <functional>
 #include <optional>
 #include <type_traits>
+#include <utility>
 
 #include <unifex/detail/prologue.hpp>
 
@@ -104,7 +106,7 @@ public:
     template <typename Func>
     friend void
     tag_invoke(tag_t<visit_continuations>, const promise_type& p, Func&& func) {
-      visit_continuations(p.receiver_, std::forward<Func>(func));
+      std::invoke(std::forward<Func>(func), std::as_const(p.receiver_));
     }
 #endif
 
